@@ -5,8 +5,8 @@
 (*   blox/value_policy.greedy_policy          -> Greedy / GreedySet           *)
 (*   algorithm/q_learning._update_policy      -> UpdatePolicy, QL             *)
 (*   algorithm/sarsa._update_policy           -> UpdatePolicy (= SARSA)       *)
-(*   algorithm/double_q_learning._dql_update  -> DQLWith / DQLSet             *)
-(*   algorithm/monte_carlo.update             -> MCEpisode                    *)
+(*   algorithm/double_q_learning._dql_update  -> DQLWith / DQLSet / DQLSetOrd *)
+(*   algorithm/monte_carlo.update             -> MCVisit (loop body), MCEpisode *)
 (*   algorithm/dynaq.q_learning_update        -> DynaQ                        *)
 (*   algorithm/dynaq.counter_update           -> CounterUpdate                *)
 (*   algorithm/dynaq.model_update             -> ModelUpdate                  *)
@@ -56,24 +56,58 @@ DQLSet(qA, qB, s, a, r, s2, gamma, term, lr) ==
 DQLGreedyAtCurrent(qA, qB, s, a, r, s2, gamma, term, lr) ==
   DQLWith(qA, qB, s, a, r, s2, Greedy(qA, s), gamma, term, lr)
 
+(* Near-ties (device D4).  A successor row of the updated table may be given  *)
+(* as float32 ORDINALS: the positive normal float32 2^e (1 + m / 2^23),       *)
+(* 0 <= m < 2^23, has ordinal (e + 127) 2^23 + m, its negative the negated    *)
+(* ordinal, 0 the ordinal 0.  The map is strictly monotone, so order and      *)
+(* equality of ordinals ARE order and equality of the floats and "ordinal +   *)
+(* 1" is the next float32 (one ulp up, also across a binade).  The greedy     *)
+(* action is decided on the ordinals: values 1, 2, 3 ulp below the maximum    *)
+(* are NOT maximisers.                                                        *)
+TwoP23 == 8388608
+OrdOf(e, m) == (e + 127) * TwoP23 + m
+OrdMaxIdx(orow)    == {i \in 1..Len(orow) : \A j \in 1..Len(orow) : orow[j] <= orow[i]}
+OrdGreedySet(orow) == {i - 1 : i \in OrdMaxIdx(orow)}
+OrdGreedy(orow)    == (CHOOSE i \in OrdMaxIdx(orow) : \A j \in OrdMaxIdx(orow) : i <= j) - 1
+(* _dql_update when the successor row of qA is known by its ordinals `orow`   *)
+(* (the rational table qA is read at the visited entry only)                  *)
+DQLSetOrd(qA, orow, qB, s, a, r, s2, gamma, term, lr) ==
+  {DQLWith(qA, qB, s, a, r, s2, b, gamma, term, lr) : b \in OrdGreedySet(orow)}
+(* named deviation: "greedy up to a tolerance" - every action whose value is  *)
+(* within tol float32 steps of the maximum counts as a maximiser              *)
+OrdCloseSet(orow, tol) ==
+  {i - 1 : i \in {i \in 1..Len(orow) : \E m \in OrdMaxIdx(orow) : orow[m] - orow[i] <= tol}}
+DQLSetOrdTolerant(qA, orow, qB, s, a, r, s2, gamma, term, lr, tol) ==
+  {DQLWith(qA, qB, s, a, r, s2, b, gamma, term, lr) : b \in OrdCloseSet(orow, tol)}
+
 (* monte_carlo.update: backward over the episode, every visit; ep is a        *)
 (* sequence of <<s, a, r>>; n the table of visit counts (integers).           *)
-RECURSIVE MCBack(_, _, _, _, _, _)
-MCBack(q, n, G, ep, k, gamma) ==
-  IF k = 0 THEN <<q, n>>
-  ELSE LET s  == ep[k][1]
-           a  == ep[k][2]
-           G2 == QAdd(ep[k][3], QMul(gamma, G))
-           n2 == [n EXCEPT ![s + 1][a + 1] = @ + 1]
-           pe == QSub(G2, At(q, s, a))
-           q2 == Put(q, s, a, QAdd(At(q, s, a), QMul(QDiv(One, I(n2[s + 1][a + 1])), pe)))
-       IN  MCBack(q2, n2, G2, ep, k - 1, gamma)
-MCEpisode(q, n, ep, gamma) == MCBack(q, n, Zero, ep, Len(ep), gamma)
+(* MCVisit is the body of the fori_loop: st = <<q, n, G>> the carried state,  *)
+(* step = <<s, a, r>>; MCEpisode folds it from the last step to the first     *)
+(* (FoldRight is evaluated iteratively: episodes of hundreds of steps).       *)
+LOCAL INSTANCE SequencesExt
+MCVisit(st, step, gamma) ==
+  LET q  == st[1]
+      n  == st[2]
+      s  == step[1]
+      a  == step[2]
+      G2 == QAdd(step[3], QMul(gamma, st[3]))
+      n2 == [n EXCEPT ![s + 1][a + 1] = @ + 1]
+      pe == QSub(G2, At(q, s, a))
+      q2 == Put(q, s, a, QAdd(At(q, s, a), QMul(QDiv(One, I(n2[s + 1][a + 1])), pe)))
+  IN  <<q2, n2, G2>>
+MCEpisode(q, n, ep, gamma) ==
+  LET res == FoldRight(LAMBDA step, st : MCVisit(st, step, gamma), ep, <<q, n, Zero>>)
+  IN  <<res[1], res[2]>>
 
 (* discounted return from step k of an episode (for the ghost of returns) *)
 RECURSIVE ReturnFrom(_, _, _)
 ReturnFrom(ep, k, gamma) ==
   IF k > Len(ep) THEN Zero ELSE QAdd(ep[k][3], QMul(gamma, ReturnFrom(ep, k + 1, gamma)))
+(* all returns-to-go of an episode at once: Returns(ep, gamma)[k] = ReturnFrom(ep, k, gamma);  *)
+(* linear in the episode length (long episodes)                               *)
+Returns(ep, gamma) ==
+  FoldRight(LAMBDA step, acc : <<QAdd(step[3], QMul(gamma, IF acc = <<>> THEN Zero ELSE acc[1]))>> \o acc, ep, <<>>)
 
 (* dynaq.q_learning_update: greedy successor value, NO termination input *)
 DynaQ(q, s, a, r, s2, gamma, lr) ==
